@@ -74,8 +74,9 @@ class PyEval:
         """-> [(path, value)] (value None for a raising path) or None if the call is not inlined"""
         if len(self._inlining) >= self.max_inline:
             return None
-        if any(isinstance(a, ast.Starred) for a in call.args) or any(k.arg is None for k in call.keywords):
+        if any(k.arg is None for k in call.keywords):
             return None
+        has_star = any(isinstance(a, ast.Starred) for a in call.args)
         env = dict(p.env)
         # a function defined earlier in the function under evaluation (a closure): its free variables are the caller's bindings
         # at the time of the call (Python closures bind late), its own locals do not leak back
@@ -98,9 +99,14 @@ class PyEval:
             return None
         if any(isinstance(n, (ast.Yield, ast.YieldFrom)) for n in ast.walk(fn)):
             return None                      # a generator function: the call makes an iterator, its body runs later
+        if has_star and not fn.args.vararg:
+            return None                      # `f(*xs)` into named parameters: which one gets what is not known
         ev: list = []
         argv = []
         for a in call.args:
+            if isinstance(a, ast.Starred):
+                argv.append(('star', self.expr(a.value, env, ev)))
+                continue
             # an argument that is itself a resolved helper call with a single straight path: its value, its events
             if isinstance(a, ast.Call):
                 sub = self._inline_call(a, PPath(conds=list(p.conds), events=[], env=dict(env)))
@@ -121,6 +127,8 @@ class PyEval:
             params = params[1:]
         if len(argv) > len(params) and not fn.args.vararg:
             return None
+        if any(isinstance(x, tuple) and x[:1] == ('star',) for x in argv[:len(params)]):
+            return None                      # an unpacked sequence would have to fill named parameters
         if fn.args.vararg:
             # `def h(self, a, *rest)`: rest is the tuple of the surplus positional arguments
             cenv[fn.args.vararg.arg] = ('tuple', tuple(argv[len(params):]))
@@ -271,6 +279,13 @@ class PyEval:
         attr = call.func.attr
         if attr == 'append' and cur[0] == 'list' and len(v[2]) == 1 and not v[3]:
             env[name] = ('list', cur[1] + (v[2][0],))
+        elif attr == 'extend' and cur[0] == 'list' and len(v[2]) == 1 and not v[3]:
+            # xs.extend(it): the display grows by the elements of `it` - spelled out when `it` is a display, else as `*it`
+            more = v[2][0]
+            if more[0] in ('list', 'tuple') and not any(x[0] == 'star' for x in more[1]):
+                env[name] = ('list', cur[1] + tuple(more[1]))
+            else:
+                env[name] = ('list', cur[1] + (('star', more),))
         elif attr == 'reverse' and not v[2]:
             if cur[0] == 'list':
                 env[name] = ('list', tuple(reversed(cur[1])))
@@ -501,7 +516,14 @@ class PyEval:
                 return out
         env = dict(p.env)
         ev: list = []
-        if isinstance(st, ast.For) and self.unroll_literal_loops:
+        # a loop over a short literal that grows a local display (`code.append(..)` / `code.extend(..)`) is evaluated element by
+        # element whatever the option says: summarised as a loop, the display would only become opaque
+        builds = isinstance(st, ast.For) and any(
+            isinstance(x, ast.Expr) and isinstance(x.value, ast.Call) and isinstance(x.value.func, ast.Attribute)
+            and x.value.func.attr in ('append', 'extend') and isinstance(x.value.func.value, ast.Name)
+            and isinstance(env.get(x.value.func.value.id), tuple) and env[x.value.func.value.id][:1] == ('list',)
+            for x in st.body)
+        if isinstance(st, ast.For) and (self.unroll_literal_loops or builds):
             it0 = self._small_display(self.expr(st.iter, dict(env), []))
             if it0 is not None:
                 live, done, broke = [p], [], []
@@ -846,7 +868,19 @@ class PyEval:
                         args.append(('star', sv))
                 else:
                     args.append(self.expr(a, env, ev))
-            kw = tuple((k.arg, self.expr(k.value, env, ev)) for k in e.keywords)
+            kw_l = []
+            for k in e.keywords:
+                kv = self.expr(k.value, env, ev)
+                if k.arg is None and kv[0] == 'dict' and all(kk[0] == 'const' and isinstance(kk[1], str) and kk[1] != '**' for kk, _v in kv[1]):
+                    kw_l.extend((kk[1], vv) for kk, vv in kv[1])      # f(**{'a': x, 'b': y}) is f(a=x, b=y)
+                else:
+                    kw_l.append((k.arg, kv))
+            kw = tuple(kw_l)
+            if f == ('name', 'dict') and len(args) == 1 and not kw and args[0][0] == 'call' and args[0][1] == ('name', 'zip') and len(args[0][2]) == 2 \
+                    and all(a[0] in ('tuple', 'list') and not any(x[0] == 'star' for x in a[1]) for a in args[0][2]) \
+                    and len(args[0][2][0][1]) == len(args[0][2][1][1]) and len(set(args[0][2][0][1])) == len(args[0][2][0][1]):
+                # dict(zip(keys, values)) of two displays of equal length with distinct keys is the dict display pairing them
+                return ('dict', tuple(zip(args[0][2][0][1], args[0][2][1][1])))
             if f[0] == 'lambda' and not kw and len(f[1]) == len(args) and not any(a[0] == 'star' for a in args):
                 # applying a lambda value (passed as an argument, held in a local): its body with the parameters replaced.  The body was
                 # evaluated in the environment of its definition, so captured variables already denote the right values.
@@ -887,6 +921,8 @@ class PyEval:
                 # getattr(x, 'name') with a literal name is the attribute x.name
                 key = ('attr', args[0], args[1][1])
                 return env.get(key, key)
+            if f == ('name', 'super') and len(args) == 2 and not kw and args[1] == ('param', 'self') and args[0][0] == 'name':
+                args = []                               # super(C, self) inside C's own method is super()
             v = ('call', f, tuple(args), kw)
             ev.append(PEvent('ecall', v, node=e))      # every call, in evaluation order
             return v
@@ -939,6 +975,19 @@ class PyEval:
             v = self.expr(e.value, env, ev)
             env[e.target.id] = v
             return v
+        if isinstance(e, (ast.GeneratorExp, ast.ListComp)) and len(e.generators) == 1 and not e.generators[0].ifs \
+                and isinstance(e.generators[0].target, ast.Name):
+            # a comprehension over a short display of CONSTANTS (a table of names) is the display of its instances: the element
+            # expression is evaluated once per constant, its calls happen in that order
+            it0 = self.expr(e.generators[0].iter, dict(env), [])
+            if it0[0] in ('tuple', 'list') and 1 <= len(it0[1]) <= 8 and all(x[0] == 'const' for x in it0[1]):
+                self.expr(e.generators[0].iter, env, ev)
+                outs = []
+                for c_ in it0[1]:
+                    benv = dict(env)
+                    benv[e.generators[0].target.id] = c_
+                    outs.append(self.expr(e.elt, benv, ev))
+                return ('list', tuple(outs))
         if isinstance(e, (ast.GeneratorExp, ast.ListComp, ast.SetComp, ast.DictComp)):
             benv = dict(env)
             gens = []
